@@ -15,9 +15,11 @@ open Cstruct Cstruct.Core
 
 /-- **Packed mode: parse-then-dump is the identity on the consumed bytes.** -/
 theorem c02_fidelity_packed (cfg : Cfg) (ty : Ty) (hS : ty.fragS cfg = true) (hu : ty.uniformAlign false = true)
-    (ctx : Ctx) (d : Bytes) (pos : Nat) (v : Val) (p : Nat) (hr : read cfg ty ctx d pos = .ok (v, p)) :
-    write cfg ty v pos = .ok ((d.drop pos).take (p - pos)) ∧ pos ≤ p ∧ p ≤ d.length := by
-  sorry
+    (ctx : Ctx) (d : Bytes) (pos : Nat) (hpos : pos ≤ d.length) (v : Val) (p : Nat) (hr : read cfg ty ctx d pos = .ok (v, p)) :
+    write cfg ty v pos = .ok ((d.drop pos).take (p - pos)) ∧ pos ≤ p ∧ p ≤ d.length :=
+  Lemmas.c02_fidelity_packed_alt cfg ty hS hu ctx d pos hpos v p hr
+-- (Without `pos ≤ d.length` the bound `p ≤ d.length` fails for zero-size types read beyond the end of the input, e.g.
+--  `void` at position 1 of the empty input: `Lemmas.c02_fidelity_packed_counterexample`.)
 
 /-- **Aligned mode: parse-then-dump yields exactly as many bytes as were consumed, identical to the input at every
     data-carrying byte and zero at every padding byte.** (Aligned start, power-of-two alignments, input long enough for the
@@ -27,12 +29,12 @@ theorem c02_fidelity_aligned (cfg : Cfg) (al : Bool) (ty : Ty) (hS : ty.fragS cf
     (hr : read cfg ty ctx d pos = .ok (v, p)) (hlen : p ≤ d.length) :
     ∃ bs, write cfg ty v pos = .ok bs ∧ bs.length = p - pos ∧ pos ≤ p ∧
       bs = applyMask (tyMask cfg ty) ((d.drop pos).take (p - pos)) ∧ (tyMask cfg ty).length = p - pos := by
-  sorry
+  exact Lemmas.fidelity_aligned cfg al ty hS hu hp ctx d pos hal v p hr hlen
 
 /-- In packed mode there is no padding: every byte of a fragment-S type carries data. -/
 theorem c02_mask_packed (cfg : Cfg) (ty : Ty) (hS : ty.fragS cfg = true) (hu : ty.uniformAlign false = true) (n : Nat)
     (hsz : ty.size cfg = some n) : tyMask cfg ty = List.replicate n true := by
-  sorry
+  exact Lemmas.mask_packed_ty cfg ty hS hu n hsz
 
 /-! ### Non-vacuity -/
 example : tyMask Cstruct.Core.cfg0 Cstruct.Core.ty0 =
